@@ -11,7 +11,7 @@ PS = "msi::internal::propset::"
 TYPE_REF = {"Empty": 0, "Null": 1, "I2": 2, "I4": 3, "I1": 16, "LpStr": 30, "FileTime": 64}
 
 
-def run(ctx):
+def run(ctx, only_type_id=False):
     prog = ctx.prog
     fw = prog.fn(PS + "PropertyValue::write")
     fr = prog.fn(PS + "PropertyValue::read")
@@ -30,6 +30,7 @@ def run(ctx):
             if d and vs.get(d[0][1]) not in wtab and args[1].startswith("c:"):
                 wtab[vs[d[0][1]]] = int(args[1][2:])
     rtab = {}
+    rarm = {}
     domr = cfg.dominators(fr)
     for bl in fr.blocks:
         if bl["cleanup"]:
@@ -42,12 +43,21 @@ def run(ctx):
                     for s in fr.blocks[b]["stmts"]:
                         r = s["rhs"]
                         if r["rv"] == "agg" and (r.get("adt") or "").endswith("PropertyValue"):
-                            rtab[r["variant"]] = v
+                            rarm.setdefault(v, set()).add(r["variant"])
+    for v, names in sorted(rarm.items()):
+        # one type number, one variant: an arm that can also yield another variant (say Empty for an all-zero FILETIME) loses that value on reopen
+        ctx.check(len(names) == 1, R, "reader arm for type %d" % v, "builds only %s" % sorted(names), "the reader's arm for type %d can build %s: some stored values of that type "
+                  "are read back as a different kind of value" % (v, sorted(names)), fr.loc(), fn=fr.name, key="%s|arm|%d" % (R, v))
+        for nm in names:
+            if len(names) == 1 or TYPE_REF.get(nm) == v:
+                rtab[nm] = v
     for name in sorted(set(vs.values())):
         ok = wtab.get(name) == rtab.get(name) == TYPE_REF.get(name)
         ctx.check(ok, R, name, "type %s" % wtab.get(name), "PropertyValue::%s: writer uses type %s, reader %s, format %s" % (name, wtab.get(name), rtab.get(name), TYPE_REF.get(name)),
                   fw.loc(), fn=fw.name, key="%s|%s" % (R, name))
     ctx.floor(R, "PropertyValue variants", len(vs), 7)
+    if only_type_id:
+        return
 
     R = "SIZE-1"
     ctx.rule(R, "for each fixed-size variant, the bytes emitted by its write arm on every success path equal its size_including_padding entry and are a "
